@@ -504,15 +504,19 @@ func main() {
 
 type bound struct {
 	Depth, Dev, Alts int
+	Small            bool // use the quick alphabet (deepest thorough bound)
 }
 
 func bounds(tier string) []bound {
 	// simplest first: short histories with many deviations, then longer ones with fewer
 	if tier == "thorough" {
-		return []bound{{1, 2, 0}, {2, 2, 0}, {3, 1, 2}, {3, 1, 3}, {4, 0, 3}, {3, 2, 2}}
+		// sized to complete inside the deadline on 16 cores (≈ 18 k CPU-s): all items at depth 2 with one
+		// deviation, two deviations at depth 2 and one at depth 3 with {newest, oldest, empty}, depth 4
+		// without deviations over the quick alphabet
+		return []bound{{Depth: 1, Dev: 2, Alts: 0}, {Depth: 2, Dev: 1, Alts: 0}, {Depth: 2, Dev: 2, Alts: 3}, {Depth: 3, Dev: 0, Alts: 3}, {Depth: 3, Dev: 1, Alts: 3}, {Depth: 4, Dev: 0, Alts: 3, Small: true}}
 	}
-	bs := []bound{{1, 2, 0}, {2, 1, 3}, {3, 0, 3}} // two deviations at depth 2: thorough ({2,2,0})
-	if v := os.Getenv("C01_ONLY_BOUND"); v != "" { // development aid: time one bound
+	bs := []bound{{Depth: 1, Dev: 2, Alts: 0}, {Depth: 2, Dev: 1, Alts: 3}, {Depth: 3, Dev: 0, Alts: 3}} // two deviations at depth 2: thorough
+	if v := os.Getenv("C01_ONLY_BOUND"); v != "" {                                                       // development aid: time one bound
 		i, _ := strconv.Atoi(v)
 		return bs[i : i+1]
 	}
@@ -520,7 +524,7 @@ func bounds(tier string) []bound {
 }
 
 func run(t *vlib.T) {
-	alpha := alphabet(t.Thorough())
+	alphaFull, alphaQuick := alphabet(t.Thorough()), alphabet(false)
 	sweepCtxs := 2
 	if t.Thorough() {
 		sweepCtxs = 3
@@ -538,13 +542,17 @@ func run(t *vlib.T) {
 	})
 	for _, b := range bounds(t.Tier()) {
 		b := b
+		alpha := alphaFull
+		if b.Small {
+			alpha = alphaQuick
+		}
 		var rec func(seq []op)
 		rec = func(seq []op) {
 			if t.Stopped() {
 				return
 			}
 			if len(seq) > 0 {
-				key := fmt.Sprintf("d%d/dev%d/%v", b.Depth, b.Dev, seq)
+				key := fmt.Sprintf("d%d/dev%d/%v", b.Depth, b.Dev, seq) // (no two bounds of a tier share depth and dev)
 				s := append([]op{}, seq...)
 				t.Case(key, func() *vlib.Outcome { return explore(s, b, sweepCtxs, t.Progress) })
 			}
